@@ -48,7 +48,9 @@ def main():
     ap.add_argument('--demo-cmd', default='')
     ap.add_argument('--tier', default='quick')
     ap.add_argument('--name', default='')
+    ap.add_argument('--isolate', action='store_true', help='run the check on a private copy of lean/ and build/ (parallel-safe)')
     a = ap.parse_args()
+    iso = None
     wt = tempfile.mkdtemp(prefix='seeded_wt_')
     os.rmdir(wt)
     rc, out = sh('git -C /repo worktree add -q %s HEAD' % wt)
@@ -68,6 +70,9 @@ def main():
                     break
         meta['ran'].append({'cmd': 'demo on unchanged tree', 'exit': rc0})
         rc, out = sh('git -C %s apply %s' % (wt, os.path.abspath(a.patch)))
+        if rc != 0:      # /repo has moved on since the change was written (later fix: commits): merge
+            rc, out = sh('git -C %s apply -3 %s && git -C %s reset -q' % (wt, os.path.abspath(a.patch), wt))
+            meta['ran'].append({'cmd': 'git apply -3 (the base of the change is older than /repo HEAD)', 'exit': rc})
         assert rc == 0, 'patch does not apply: ' + out
         rc1, o1 = sh('cd %s && PYTHONPATH=%s/python /venv/bin/python -m pytest -q -p no:cacheprovider python/tests 2>&1 | tail -1' % (wt, wt))
         meta['ran'].append({'cmd': 'pytest python/tests with the change', 'result': o1.strip()[-80:]})
@@ -75,6 +80,10 @@ def main():
         meta['ran'].append({'cmd': 'demo with the change', 'exit': rc2, 'tail': o2.strip()[-300:]})
         meta['confirmed'] = (rc0 == 0 and rc2 != 0 and '152 passed' in o1)
         env = dict(os.environ, FE_REPO=wt, FE_EVIDENCE=os.path.join(tempfile.gettempdir(), 'seeded_evidence'))
+        if a.isolate:
+            iso = tempfile.mkdtemp(prefix='seeded_iso_')
+            sh('cp -a %s %s/lean' % (os.path.join(VERIF, 'lean'), iso))
+            env.update(FE_LEAN=iso + '/lean', FE_BUILD=iso + '/build', FE_EVIDENCE=iso + '/evidence')
         os.makedirs(env['FE_EVIDENCE'], exist_ok=True)
         t = time.time()
         rc3, o3 = sh('cd %s && ./check %s --tier %s' % (VERIF, a.prop, a.tier), env=env, timeout=3600)
@@ -99,16 +108,20 @@ def main():
         print(json.dumps(meta, indent=1))
     finally:
         sh('git -C /repo worktree remove --force %s' % wt)
+        if a.isolate:
+            shutil.rmtree(iso, ignore_errors=True)
         # translators rewrite lean/FeVerif/Generated/* from the tree they are pointed at: regenerate from /repo
-        sh('cd %s && ./check %s --tier quick' % (VERIF, a.prop), env=dict(os.environ, FE_EVIDENCE=os.path.join(tempfile.gettempdir(), 'seeded_evidence')), timeout=3600)
+        if not a.isolate:
+            sh('cd %s && ./check %s --tier quick' % (VERIF, a.prop), env=dict(os.environ, FE_EVIDENCE=os.path.join(tempfile.gettempdir(), 'seeded_evidence')), timeout=3600)
     # file it
     base = os.path.join(VERIF, 'seeded')
     os.makedirs(base, exist_ok=True)
     name = a.name or '%s-%d' % (a.prop, 1 + len([d for d in os.listdir(base) if d.startswith(a.prop + '-')]))
     d = os.path.join(base, name)
     os.makedirs(d, exist_ok=True)
-    shutil.copy(a.patch, os.path.join(d, 'patch.diff'))
-    shutil.copy(a.demo, os.path.join(d, os.path.basename(a.demo)))
+    for src, dst in ((a.patch, os.path.join(d, 'patch.diff')), (a.demo, os.path.join(d, os.path.basename(a.demo)))):
+        if os.path.abspath(src) != os.path.abspath(dst):
+            shutil.copy(src, dst)
     with open(os.path.join(d, 'meta.json'), 'w') as f:
         json.dump(meta, f, indent=1)
     print('filed under', d)
